@@ -29,6 +29,11 @@ claimed = {
  "C19": ("model_checking", "Outstanding governed requests never exceed N x throttles at the messaging boundary on every schedule / answer order; all governed requests eventually published; exhaustive Add/Done sequences on the exported Throttle.", E1 + " + " + E2, "6 C19"),
  "C20": ("fault_enumeration", "Stop / messaging loss injected after every step of 6 base histories over real WebSocket connections: all clients closed, new requests refused, cause reported, restart works.", "fault-point enumeration over (history, step index, fault kind) on the free-running gateway with real sockets", "6 C20"),
 }
+MM = " + explicit-state breadth-first search (Mode M): environment actions followed by a run to internal quiescence on the real Service, canonical state hashing, successors rebuilt by replaying the shortest path, every state probed with the end-of-run oracles"
+for pid, spec in {"C01": "M:events", "C02": "M:gc", "C03": "M:events", "C04": "M:access", "C05": "M:access", "C06": "M:access", "C07": "M:count", "C08": "M:count", "C09": "M:cache", "C12": "M:events", "C13": "M:query"}.items():
+    cat, text, tech, ref = claimed[pid]
+    claimed[pid] = (cat, text + " Also every state of the Mode M space " + spec + " up to the depth reported in evidence.", tech + MM, ref)
+TB = TB.replace("Go map iteration order observed not enumerated", "Go map iteration order observed not enumerated except the subscriber fan-out, which runs in registration order (build overlay)")
 todo = {}
 props = [json.loads(l) for l in open(os.path.join(ROOT, "properties.jsonl"))]
 checks, na = [], []
@@ -55,7 +60,7 @@ m = {
  "setup_cmd": "bash bin/setup.sh",
  "hooks": {
    "guard": "verif",
-   "enable": "go build -tags verif -overlay .work/overlay.json (Go build tag; the overlay - owned timerqueue timers and registration-ordered subscriber fan-out - is generated from /repo's current files by bin/gen_overlay.py, /repo is not touched; bin/build.sh)",
+   "enable": "go build -tags verif -overlay .work/overlay.json (Go build tag; the overlay - owned timerqueue timers, registration-ordered subscriber fan-out and owned extended request timers of the NATS adapter - is generated from /repo's current files by bin/gen_overlay.py, /repo is not touched; bin/build.sh)",
    "baseline_off_cmd": "cd /repo && GOFLAGS=-mod=mod GOPROXY=off GOSUMDB=off go test -mod=mod -vet=off -count=1 ./...",
    "source_commits": hooks_commits,
    "add_only": True,
@@ -65,7 +70,7 @@ m = {
  ],
  "checks": checks,
  "not_applicable": na,
- "notes": "All checks rebuild the harness against /repo's working tree (bin/build.sh). Known genuine defects are listed in known_findings.json.",
+ "notes": "All checks rebuild the harness against /repo's working tree (bin/build.sh). Known genuine defects are listed in known_findings.json (open: printed as KNOWN-FINDING; fixed: one /repo commit each, 21 so far). The hook commits are listed in hooks.source_commits; in addition the repair d93d255 adapts one line of the hook file server/rescache/verif_on.go (the extra cache workers of the harness take the new stop channel). bin/regress.sh replays pinned schedules of open and repaired findings as plain go tests; bin/racepass.sh is a free-running -race diagnostic (not a check); seeded/ and mutants/ hold the deliberate property-breaking changes the checks were tried against (bin/all_seeds.sh, bin/demo-mutants.sh).",
 }
 json.dump(m, open(os.path.join(ROOT, "MANIFEST.json"), "w"), indent=1)
 print("checks:", len(checks), "not_applicable:", len(na))
